@@ -49,6 +49,11 @@ impl<'a> Walk<'a> {
             }
             _ => self.c.mode.hasher(),
         };
+        if self.c.splits.len() % 3 == 1 {
+            // the offset may be set more than once before any input: only the last call counts
+            let elsewhere = ((off / 1024) as u64 ^ 0x55).wrapping_add(1 + self.leaves as u64) % (1 << 40) * 1024;
+            h.set_input_offset(elsewhere);
+        }
         h.set_input_offset(off as u64);
         let mut done = 0usize;
         let mut updates = 0;
@@ -372,7 +377,7 @@ pub fn subs() -> Vec<Box<dyn DynSub>> {
     vec![
         Box::new(PropSub::<TreeCase> {
             name: "decompositions",
-            rule: "proptest: (mode incl. new_from_context_key, input 1025 B..256 KiB quick / 4 MiB thorough, depth-first split decisions, per-leaf update sizes): every node is either hashed as one subtree (a fresh hasher, or in half of the cases one long-lived worker re-seeded per leaf by clone_from(template) / reset(); set_input_offset + updates + finalize_non_root, CV compared with the spec subtree CV) or split at left_subtree_len and merged; root via merge_subtrees_root and _root_xof vs spec whole-input hash/XOF and the crate's own hash; non-trivial = >=3 leaves, one of them multi-chunk, generated update splits",
+            rule: "proptest: (mode incl. new_from_context_key, input 1025 B..256 KiB quick / 4 MiB thorough, depth-first split decisions, per-leaf update sizes): every node is either hashed as one subtree (a fresh hasher, or in half of the cases one long-lived worker re-seeded per leaf by clone_from(template) / reset(); in a third of the cases the offset is first set elsewhere and then to its real value; set_input_offset + updates + finalize_non_root, CV compared with the spec subtree CV) or split at left_subtree_len and merged; root via merge_subtrees_root and _root_xof vs spec whole-input hash/XOF and the crate's own hash; non-trivial = >=3 leaves, one of them multi-chunk, generated update splits",
             cases: (16_000, 120_000),
             strategy: tree_strategy,
             classify: classify_tree,
